@@ -50,7 +50,7 @@ def _gen_ctor(wl, method=None):
     return {'center_extrema': wl.choice(('peak', 'trough')), 'burst_method': method,
             'burst_kwargs': gen_burst_kwargs(wl, method), 'thresholds': th,
             'find_extrema_kwargs': gen_find_extrema_kwargs(wl),
-            'return_samples': wl.random() < 0.7}
+            'return_samples': wl.random() < 0.7, 'positional': wl.random() < 0.3}
 
 
 def _gen_edit(wl, cur, clean):
@@ -132,7 +132,8 @@ def gen_plan(wl, fr, idx):
         plan['signals'] = []
         for k in range(nsig):
             band = gen_band(wl)
-            plan['signals'].append({'band': band, 'spec': gen_signal_spec(wl, band, k)})
+            plan['signals'].append({'band': band, 'spec': gen_signal_spec(wl, band, k),
+                                    'f_range_list': wl.random() < 0.2, 'fs_float': wl.random() < 0.2})
         scen = wl.random()
         if scen < 0.15:       # fit(amp) -> edit min_n_cycles -> fit
             if cur['burst_method'] != 'amp':
@@ -341,6 +342,9 @@ def apply_edit_to_object(obj, op):
 
 def construct(cls, ctor):
     c = ref.live(ctor)
+    if ctor.get('positional'):
+        return cls(c['center_extrema'], c['burst_method'], c['burst_kwargs'], c['thresholds'],
+                   c['find_extrema_kwargs'], c['return_samples'])
     return cls(center_extrema=c['center_extrema'], burst_method=c['burst_method'],
                burst_kwargs=c['burst_kwargs'], thresholds=c['thresholds'],
                find_extrema_kwargs=c['find_extrema_kwargs'], return_samples=c['return_samples'])
@@ -405,6 +409,10 @@ def fit_args(plan, op):
     band = d['band']
     sig = build_signal(d['spec'], band)
     fs, f_range = band['fs'], tuple(band['f_range'])
+    if d.get('f_range_list'):
+        f_range = list(f_range)
+    if d.get('fs_float'):
+        fs = float(fs)
     bad = op.get('bad')
     if bad == 'sig2d':
         sig = sig.reshape(1, -1)
@@ -561,7 +569,7 @@ def _op_fit(plan, op, n, obj, model, res, hist):
         res.violate(vclass, '%s:%s' % (method, col), 'op %d (fit): %s' % (n, mismatch))
         return
     if got[0] == 'ok':
-        if diff(np.asarray(obj.sig), sig) or obj.fs != fs or tuple(obj.f_range) != tuple(f_range):
+        if diff(np.asarray(obj.sig), sig) or obj.fs != fs or list(obj.f_range) != list(f_range):
             res.violate('model-mismatch', 'fit-attributes', 'op %d (fit): sig/fs/f_range are not the arguments' % n)
             return
         model.table = ('known', expected[1])
